@@ -9,7 +9,7 @@
 From Coq Require Import ZArith List Bool Lia.
 Import ListNotations.
 Require Import Base.Py Base.ZList Model.Fam_asf Proofs.Fam_asf_codec Proofs.Fam_asf_save Proofs.Fam_asf_agree
-  Proofs.Fam_asf_attr Proofs.Fam_asf_reopen Proofs.Fam_asf_c01.
+  Proofs.Fam_asf_attr Proofs.Fam_asf_reopen Proofs.Fam_asf_c01 Proofs.Fam_asf_canon.
 Open Scope Z_scope.
 
 (* codecs: every value type, in both layouts (dword = ExtendedContentDescription: BOOL is 4 bytes; otherwise 2) *)
@@ -50,6 +50,23 @@ Theorem C01_asf_all_read_back : forall f t cb f', Forall valid_attr t -> asf_sav
     forall a, In a t -> exists k, (k = 0 \/ k = 1 \/ k = 2 \/ k = 3) /\ In (attr_tag k a) loaded.
 Proof. exact asf_save_load_all. Qed.
 Print Assumptions C01_asf_all_read_back.
+
+(* exact form on files that respect the cardinality / level rules of the specification (asf_canon: CD, ECD, header
+   extension at most once, at top level; Metadata, MetadataLibrary at most once, inside the header extension):
+   class by class, the independent reader finds exactly the placed lists, in order, each once *)
+Theorem C01_asf_exact : forall f s t cb f', asf_parse f = Ok s -> asf_canon f = true ->
+  Forall valid_attr t -> asf_save f t cb = Ok f' ->
+  exists loaded, asf_load f' = Ok loaded /\
+    let '(c0, c1, c2, c3) := placed_tags (place t) in
+    of_class 0 loaded = c0 /\ of_class 1 loaded = c1 /\ of_class 2 loaded = c2 /\ of_class 3 loaded = c3.
+Proof. exact asf_save_load_exact. Qed.
+Print Assumptions C01_asf_exact.
+
+(* those rules are kept by every save *)
+Theorem C01_asf_canon_kept : forall f s t cb f', asf_parse f = Ok s -> asf_canon f = true -> asf_save f t cb = Ok f' ->
+  asf_canon f' = true.
+Proof. exact asf_save_canon. Qed.
+Print Assumptions C01_asf_canon_kept.
 
 (* ---- examples: grouping; a second Title and a non-text Title go to the library; trailing NUL is outside valid_attr *)
 Definition tiny : list Z := asf_build [OLeaf G_FILE (zeros 64)] [7; 8; 9].
